@@ -381,6 +381,10 @@ class Interp:
         elif isinstance(t, ast.Attribute):
             obj = self.eval(t.value, env, mi)
             if isinstance(obj, SObj):
+                setter = self.find_method(obj.cls, t.attr + '.setter')
+                if setter is not None:
+                    self.call_function(setter, [val], {}, bound=obj)
+                    return
                 obj.attrs[t.attr] = val
             elif isinstance(obj, SVar):
                 self.mutate(obj, t, f'attribute store .{t.attr}')
@@ -396,6 +400,11 @@ class Interp:
                     raise AnalysisError(f'subscript store at {self.where(t)}') from None
             elif isinstance(obj, SVar):
                 self.mutate(obj, t, 'item store')
+            elif isinstance(obj, SObj):
+                si = self.find_method(obj.cls, '__setitem__')
+                if si is None:
+                    raise AnalysisError(f'item store on {obj.cls.name} without __setitem__ at {self.where(t)}')
+                self.call_function(si, [key, val], {}, bound=obj)
             elif isinstance(obj, BoundModel | Opaque):
                 base = obj.recv if isinstance(obj, BoundModel) else None
                 if isinstance(base, SVar):
@@ -1055,7 +1064,19 @@ class Interp:
             return Opaque('comprehension over ⊤')
         return out
 
-    ex_GeneratorExp = ex_ListComp
+    def ex_GeneratorExp(self, e, env, mi):
+        # a generator over a long concrete range stays lazy (id generators and the like)
+        if len(e.generators) == 1 and not e.generators[0].ifs:
+            g = e.generators[0]
+            itv = self.eval(g.iter, env, mi)
+            if isinstance(itv, range) and len(itv) > 10000:
+                def lazy():
+                    for v in itv:
+                        sub = dict(env)
+                        self.assign(g.target, v, sub, mi)
+                        yield self.eval(e.elt, sub, mi)
+                return lazy()
+        return self.ex_ListComp(e, env, mi)
 
     def ex_SetComp(self, e, env, mi):
         op = self._opaque_comp(e, env, mi)
